@@ -67,6 +67,18 @@ CLAIMS = {
    text="Lean theorems: every hashing call issues 0 or exactly 2 allocator/mapper requests (mmap + munmap, yescrypt family only), crypt_ra at most one; a failed crypt_ra request leaves pair, ledger and result as documented. Fault enumeration: for every call of a corpus covering all methods and entry points each single request position fails in turn; ledger balance, errno, result, scratch wipe and the behaviour of the next call are checked on the implementation and compared with the model.",
    note=TB + "A failing munmap leaves a mapping the library no longer controls (reported as leak=1 by model and implementation alike, stated rather than excluded); the >=32 MiB huge-page retry and pairs of faults are not enumerated in the quick tier.",
    technique="Lean 4 proof (partial) + exhaustive single-fault enumeration through --wrap", ref="DESIGN.md §6 C15"),
+ "C04": dict(
+   text="Lean theorems: every scratch structure fits the aligned scratch area (sizes from the tree), every successful result of every method is NUL-terminated inside the 384-byte output field (incl. the repaired sha1crypt bound), every crypt_gensalt_rn write is below max(output_size,0), too-small/negative crypt_rn sizes write only the fitting token and never touch the scratch areas. ASan+UBSan build: exact-size objects at all 16 alignments with canary application fields, exact-size argument blocks, grammar-shaped / mutated / 40-100 kB settings, phrases to 5000 bytes, integer boundary values, gensalt sizes and nrbytes grids; every sanitizer report is attributed to the operation that caused it.",
+   note=TB + "Undefined behaviour that is not index arithmetic (aliasing, shifts, signed overflow) is outside the Lean model: it is searched for by the sanitizer run only (which found the negative-char shift repaired in a047975). Reads of the caller's strings are bounded in the model by the NUL-terminated-list representation, not by a separate theorem.",
+   technique="Lean 4 proof (partial: index/length facts) + ASan/UBSan differential run", ref="DESIGN.md §6 C04"),
+ "C08": dict(
+   text="Lean theorems: (i) for every schedule of any number of threads whose steps read only immutable shared state and write only their own component, each thread's result equals its solo run (induction over schedules); (ii) over the call graph and static-storage write footprint regenerated from the clang AST of lib/*.c on every run: no function reachable from the seven re-entrant entry points (indirect method calls resolved to all methods) may write an object with static storage duration, the closure is closed, and the non-re-entrant variants do reach such writers. ThreadSanitizer build: 2..16 threads execute mixed call batches on their own objects; transcripts must equal the sequential ones.",
+   note=TB + "The footprint analysis is syntactic (assignments, ++/--, address-of, arrays/structs passed to calls); libc (arc4random_buf, malloc, mmap) and the scheduler are trusted to be thread-safe.",
+   technique="Lean 4 proof (interleaving theorem + decide over AST-generated footprint) + TSan run", ref="DESIGN.md §6 C08"),
+ "C09": dict(
+   text="Lean theorems over the API state machine from an arbitrary prior object: after crypt_r/crypt_rn the scratch areas (internal, reserved, initialized) are all zero iff the request got past validation (characterised exactly), otherwise untouched; too-small sizes never touch them. Harness: every byte of the object is inspected after each call of random histories over pre-filled objects (zero predicate, unchanged predicate, passphrase search in 6 encodings), digest/HMAC contexts after final, crypt_ra's erase-before-realloc through the ledger.",
+   note=TB + "The stack clause depends on compiler frame layout and is not modelled; a poisoned-stack scan runs in the thorough tier as a search aid only. crypt_gensalt's entropy buffer is a stack object (same limitation).",
+   technique="Lean 4 proof (object clause) + full-object inspection after every call", ref="DESIGN.md §6 C09"),
 }
 NOT_YET = "check under construction in this round; not claimed yet"
 
@@ -78,7 +90,7 @@ def main():
            "engines": [{"name": "xcverif", "path": "verif.py", "serves_properties": sorted(CLAIMS),
                         "kind_free_text": "Lean 4 theorems over a generated + hand-written model; translators regenerate the generated part from /repo on every run; a C harness and a Lean driver run the same op file for the correspondence; per-property oracle searches the implementation for a failing input"}],
            "checks": [], "not_applicable": [],
-           "notes": "fix: commits in /repo: 05a8488 (C13), 6db9970 (C12), 5081cef (C11), b269775 (C04), 2c336b0 (C01); see known_findings.json"}
+           "notes": "fix: commits in /repo: 05a8488 (C13), 6db9970 (C12), 5081cef (C11), b269775 (C04), 2c336b0 (C01), a047975 (C04); see known_findings.json"}
     for p in props:
         i = p["id"]
         if i in CLAIMS:
